@@ -196,7 +196,7 @@ def main(argv):
                 continue
             in_ledger = it['name'] in ledger.get(g, {}).get('proved', [])
             rep = it.get('replay') or {}
-            if it['verdict'] == 'refuted' and rep.get('reproduced'):
+            if it['verdict'] in ('refuted', 'undecided') and rep.get('reproduced'):
                 violations.append({'obligation': f"{prop}.{full}", 'kind': it['kind'], 'goal': it.get('goal'), 'model': it.get('model'),
                                    'replay': rep, 'reproduced': True, 'note': it.get('note'), 'lineno': it.get('lineno')})
             elif in_ledger:
